@@ -78,7 +78,7 @@ func runC02(c *core.Ctx, o Options) {
 				bad = append(bad, "the template copy gets key "+an.Render(call.Call.Args[0])+" instead of kv.Key")
 			}
 			made := ""
-			if mi, ok := call.Call.Args[1].(*ssa.MakeInterface); ok {
+			if mi, ok := an.ResolveOnPath(call.Call.Args[1], p).(*ssa.MakeInterface); ok { // the value may be chosen by a switch and passed to a single NewKeyValue
 				if n := an.NamedOf(mi.X.Type()); n != nil {
 					made = n.Obj().Name()
 				}
@@ -155,41 +155,70 @@ func runC02(c *core.Ctx, o Options) {
 		})
 		c.Check(skCall != nil && an.Render(skCall.Call.Args[1]) == "data" && an.Render(skCall.Call.Args[2]) == "fixItem.(*fix.KeyValue)#0", "R3", "state.unmarshal", "a KeyValue is scanned in the data it was given", um.Pos(), "scanKeyValue(data, el)", "the KeyValue case does not scan its own data for its own element")
 	}
-	// ---- R4 per-entry loop
+	// ---- R4 per-entry loop (in the group case itself, or in a helper of the package that is handed the group and the pieces)
 	{
-		var asT, addE *ssa.Call
 		var split *ssa.Call
-		var rec *ssa.Call
 		an.AllInstrs(um, func(in ssa.Instruction) {
-			call, ok := in.(*ssa.Call)
-			if !ok {
-				return
-			}
-			switch {
-			case an.CalleeIs(&call.Call, "fix", "Group.AsTemplate"):
-				asT = call
-			case an.CalleeIs(&call.Call, "fix", "Group.AddEntry"):
-				addE = call
-			case an.StaticCallee(&call.Call) == sg:
+			if call, ok := in.(*ssa.Call); ok && an.StaticCallee(&call.Call) == sg {
 				split = call
-			case an.StaticCallee(&call.Call) == um && call.Block().Comment == "rangeindex.body" && inLoop(call.Block()):
-				if ia, ok := unload(call.Call.Args[1]).(*ssa.IndexAddr); ok && split != nil && ia.X == ssa.Value(split) {
-					rec = call
-				}
 			}
 		})
-		// (the recursive call for entries may precede `split` in instruction order; search again)
-		an.AllInstrs(um, func(in ssa.Instruction) {
-			if call, ok := in.(*ssa.Call); ok && an.StaticCallee(&call.Call) == um && split != nil {
-				if ia, ok := unload(call.Call.Args[1]).(*ssa.IndexAddr); ok && ia.X == ssa.Value(split) {
-					rec = call
+		// lf: the function that holds the loop; pieces: the split result as lf sees it; entry: the instruction of um that leads into the loop
+		lf := um
+		var pieces ssa.Value
+		var entry ssa.Instruction
+		var group ssa.Value // the group as lf sees it
+		if split != nil {
+			pieces = split
+			an.AllInstrs(um, func(in ssa.Instruction) {
+				call, ok := in.(*ssa.Call)
+				if !ok {
+					return
 				}
-			}
-		})
+				h := an.StaticCallee(&call.Call)
+				if h == nil || h == um || h == sg || h.Pkg != um.Pkg || len(h.Blocks) == 0 || an.KnownFuncs[h.String()] {
+					return
+				}
+				for i, a := range call.Call.Args {
+					if a == ssa.Value(split) && i < len(h.Params) {
+						lf, pieces, entry = h, h.Params[i], call
+						for j, b := range call.Call.Args {
+							if an.TypeIs(b.Type(), "fix", "Group") && j < len(h.Params) {
+								group = h.Params[j]
+							}
+						}
+					}
+				}
+			})
+		}
+		var asT, addE, rec *ssa.Call
+		if pieces != nil {
+			an.AllInstrs(lf, func(in ssa.Instruction) {
+				call, ok := in.(*ssa.Call)
+				if !ok {
+					return
+				}
+				switch {
+				case an.CalleeIs(&call.Call, "fix", "Group.AsTemplate"):
+					asT = call
+				case an.CalleeIs(&call.Call, "fix", "Group.AddEntry"):
+					addE = call
+				case an.StaticCallee(&call.Call) == um:
+					if ia, ok := unload(call.Call.Args[1]).(*ssa.IndexAddr); ok && ia.X == pieces {
+						rec = call
+					}
+				}
+			})
+		}
 		var bad []string
 		if asT == nil || addE == nil || split == nil || rec == nil {
 			bad = append(bad, "the group case lacks AsTemplate / AddEntry / splitGroup / the per-piece recursive call")
 		} else {
+			if lf == um {
+				entry = asT
+			} else if group == nil || asT.Call.Args[0] != group || addE.Call.Args[0] != group {
+				bad = append(bad, "the helper "+lf.Name()+" does not build and add the entries on the group it is given")
+			}
 			var iPhi *ssa.Phi
 			if ia, ok := unload(rec.Call.Args[1]).(*ssa.IndexAddr); ok {
 				iPhi = rangeIndexPhi(ia.Index)
@@ -200,7 +229,7 @@ func runC02(c *core.Ctx, o Options) {
 			if iPhi != nil {
 				head := iPhi.Block()
 				loopBlocks := map[*ssa.BasicBlock]bool{}
-				for _, lp := range loops(um) {
+				for _, lp := range loops(lf) {
 					isThis := false
 					for _, b := range lp {
 						if b == head {
@@ -244,27 +273,32 @@ func runC02(c *core.Ctx, o Options) {
 						}
 					}
 				}
-				isLenOfSplit := func(v ssa.Value) bool {
+				isLenOf := func(v, of ssa.Value) bool {
 					call, ok := v.(*ssa.Call)
 					if !ok {
 						return false
 					}
 					b, ok := call.Call.Value.(*ssa.Builtin)
-					return ok && b.Name() == "len" && call.Call.Args[0] == ssa.Value(split)
+					return ok && b.Name() == "len" && call.Call.Args[0] == of
+				}
+				isLenOfSplit := func(v ssa.Value) bool { return isLenOf(v, split) }
+				boundIsLenOfPieces := isLenOf(boundVal, pieces)
+				if lf != um && !boundIsLenOfPieces {
+					bad = append(bad, "the helper's loop does not run over the pieces it is given (bound "+bound+")")
 				}
 				cntOK := false
 				for _, p := range umPaths {
-					if !p.Passes(asT) {
+					if !p.Passes(entry) {
 						continue
 					}
 					found := false
 					for _, a := range p.Atoms {
 						if bo, ok := a.Val.(*ssa.BinOp); ok && a.Rel == "==" {
-							if (isLenOfSplit(bo.X) && bo.Y == boundVal) || (isLenOfSplit(bo.Y) && bo.X == boundVal) {
+							if lf == um && ((isLenOfSplit(bo.X) && bo.Y == boundVal) || (isLenOfSplit(bo.Y) && bo.X == boundVal)) {
 								found = true
 							}
 							// range over the pieces themselves: the loop bound is len(pieces); the comparison with the parsed count must still be on the path
-							if isLenOfSplit(boundVal) {
+							if boundIsLenOfPieces {
 								for _, pair := range [][2]ssa.Value{{bo.X, bo.Y}, {bo.Y, bo.X}} {
 									if isLenOfSplit(pair[0]) && strings.HasSuffix(an.Render(pair[1]), ".Value.Value().(int)") {
 										found = true
@@ -286,6 +320,28 @@ func runC02(c *core.Ctx, o Options) {
 				if !strings.HasSuffix(bound, ".Value.Value().(int)") {
 					bad = append(bad, "the loop bound is "+bound+", not the parsed count field")
 				}
+				// a helper's error is the group case's error
+				if lf != um {
+					if call, ok := entry.(*ssa.Call); ok {
+						okErr := false
+						for _, p := range umPaths {
+							if p.Return != nil && p.Passes(call) && len(p.ResVals) == 1 && an.Unspill(p.ResVals[0]) == ssa.Value(call) {
+								okErr = true
+							}
+						}
+						if !okErr {
+							// or tested and returned non-nil
+							for _, p := range umPaths {
+								if p.Return != nil && p.Passes(call) && p.Has(an.Render(call)+" != nil") && len(p.Results) == 1 && p.Results[0] != "nil" {
+									okErr = true
+								}
+							}
+						}
+						if !okErr {
+							bad = append(bad, "the error of "+lf.Name()+" is not returned by the group case")
+						}
+					}
+				}
 			}
 		}
 		c.Check(len(bad) == 0, "R4", "state.unmarshal", "one fresh template per entry, filled from piece i, added once, for i = 0 … count−1 = pieces−1", um.Pos(), "AsTemplate inside the loop; AddEntry(entry) after the item loop; len(pieces) == count", strings.Join(bad, "; "))
@@ -298,8 +354,45 @@ func runC02(c *core.Ctx, o Options) {
 		paths, _ := an.EnumPaths(sg, 256)
 		var bad []string
 		nFound, nLast := 0, 0
+		// the loop-carried rest of the line
+		var carried *ssa.Phi
+		for _, b := range sg.Blocks {
+			for _, in := range b.Instrs {
+				if phi, ok := in.(*ssa.Phi); ok && phi.Type().Underlying().String() == "[]byte" {
+					carried = phi
+				}
+			}
+		}
 		for _, p := range paths {
 			if !p.Loop {
+				// a final iteration that returns from inside the loop: what it appends must be the whole rest
+				if p.Return == nil || carried == nil {
+					continue
+				}
+				for _, b := range p.Blocks {
+					for _, in := range b.Instrs {
+						call, ok := in.(*ssa.Call)
+						if !ok {
+							continue
+						}
+						if bi, ok := call.Call.Value.(*ssa.Builtin); !ok || bi.Name() != "append" {
+							continue
+						}
+						elems, ok := an.SliceElems(call.Call.Args[1])
+						if !ok || len(elems) != 1 {
+							continue
+						}
+						whole := elems[0] == ssa.Value(carried)
+						if sl, isSl := elems[0].(*ssa.Slice); isSl && sl.X == ssa.Value(carried) && sl.Low == nil {
+							pr := an.NewProver(sg, p, nil, nil)
+							whole = sl.High == nil || pr.Lin(sl.High).String() == "len("+carried.Comment+")"
+						}
+						nLast++
+						if !whole {
+							bad = append(bad, "the last piece is "+an.Render(elems[0])+", not the whole rest of the line")
+						}
+					}
+				}
 				continue
 			}
 			// the piece appended and the remainder on this way round
@@ -319,7 +412,7 @@ func runC02(c *core.Ctx, o Options) {
 			last := p.Blocks[len(p.Blocks)-1]
 			head := p.Blocks[1]
 			for _, in := range head.Instrs {
-				if phi, ok := in.(*ssa.Phi); ok && phi.Comment == "line" {
+				if phi, ok := in.(*ssa.Phi); ok && phi.Type().Underlying().String() == "[]byte" {
 					for i, pred := range head.Preds {
 						if pred == last {
 							remainder, _ = phi.Edges[i].(*ssa.Slice)
@@ -563,6 +656,21 @@ func checkTemplateRebuild(c *core.Ctx, rule string) {
 		var bad []string
 		// tmp := make([]Item, len(items)); for i, item := range items { tmp[i] = rebuilt }
 		src := map[string]string{"Group.AsTemplate": "g.template", "Component.AsTemplate": "c.items"}[name]
+		// the body may live in a helper shared by both (return templateOf(g.template)): analyse it there, with the
+		// parameter that receives the own item list as the source
+		if body, args := an.DelegateTo(fn); body != fn {
+			passed := ""
+			for i, a := range args {
+				if an.Render(a) == src && i < len(body.Params) {
+					passed = body.Params[i].Name()
+				}
+			}
+			if passed == "" {
+				bad = append(bad, "the helper "+body.Name()+" that builds the copy is not given "+src)
+			} else {
+				fn, src = body, passed
+			}
+		}
 		var mk *ssa.MakeSlice
 		an.AllInstrs(fn, func(in ssa.Instruction) {
 			if m, ok := in.(*ssa.MakeSlice); ok {
